@@ -11,7 +11,8 @@ ASSUMPTIONS = c01.ASSUMPTIONS + ['which branch is preferred (min vs max of the o
 UNDECIDED_CLAUSES = []
 EXPLANATION = 'One-branch obligations on the real balanced sender; balanced-receiver invariant (single id, single active source, others unregistered) on the real recv.'
 
-SQ = [Shape(('all', 'all'), (0, 0), True), Shape(('explicit', 'all'), (0, 0), True), Shape(('all',), (0,), True), Shape(('all', 'all'), (0, 0), True, timeout='sym', entry='held')]
+SQ = [Shape(('all', 'all'), (0, 0), True), Shape(('explicit', 'all'), (0, 0), True), Shape(('all',), (0,), True), Shape(('all', 'all'), (0, 0), True, timeout='sym', entry='held'),
+      Shape(('all', 'all'), (0, 0), True, state='given')]      # a join coupled with a sender (MQ passes the state) - and uncoupled again after a dropped send
 ST = SQ + [Shape(('star', 'star'), (0, 0), True), Shape(('all', 'all', 'all'), (0, 0, 0), True)]
 
 
